@@ -320,6 +320,45 @@ def rule_h(repo, chk):
            'no equality / is_relative_to / membership in (p, *p.parents) in calculate_to_path')
 
 
+def rule_h2(repo, chk):
+    """part of C07.h: WHICH files are re-rooted, as a decision table"""
+    from ..lib import decision_table
+    f = repo.find(REF, 'Refactoring.get_changed_files.calculate_to_path')
+    c = cfg_of(f)
+    heads = [n for n in c.nodes if n.kind == 'for' and isinstance(n.ast, ast.For) and norm(n.ast.iter) == 'renames']
+    if len(heads) != 1:
+        chk.ob('C07.h', False, f, 'one loop over the renames in calculate_to_path', key='to-path-table')
+        return
+    tv = [norm(e) for e in heads[0].ast.target.elts] if isinstance(heads[0].ast.target, ast.Tuple) else ['from_', 'to']
+
+    def label(n):
+        if n.kind == 'stmt' and isinstance(n.ast, ast.Assign) and 'relative_to' in norm(n.ast.value):
+            return 'moved'
+        if n is not heads[0] and n.kind == 'for' and n.ast is heads[0].ast:
+            return 'kept'
+        if n.kind == 'stmt' and isinstance(n.ast, ast.Return):
+            return 'kept'
+        return None
+    bad = decision_table(f, heads[0], [('is_it', 'p == %s' % tv[0]), ('below', '%s in p.parents' % tv[0])], label,
+                         lambda fc: 'moved' if fc['is_it'] or fc['below'] else '<loop>')
+    chk.ob('C07.h', not bad, heads[0].ast, 'a changed file is announced under the new location exactly when the renamed path is the file itself or ANY of its '
+           'ancestor directories (every depth below a renamed package moves with it)', '; '.join(bad[:3]), key='to-path-table')
+
+
+def rule_l(repo, chk):
+    chk.clause('C07.l', 'inline deletes, besides the definition, only tokens whose prefix carries nothing: every `changes[<leaf>] = \'\'` in inline is '
+                        'reached under `<leaf>.prefix.strip(\' \\t\') == \'\'` for that very leaf (a comment lives in the prefix of the newline that follows it)')
+    f = repo.find(REF, 'inline')
+    dels = [s_ for s_ in stmts_in(f, ast.Assign) if isinstance(s_.targets[0], ast.Subscript) and norm(s_.targets[0].value) == 'changes'
+            and isinstance(s_.value, ast.Constant) and s_.value.value == '']
+    chk.floor('C07.l', len(dels), 1, 'changes[leaf] = "" in inline')
+    for d in dels:
+        leaf = norm(d.targets[0].slice)
+        w = gate(f, d, lambda e, pol: pol and isinstance(e, ast.Compare) and isinstance(e.ops[0], ast.Eq) and norm(e.left).startswith('%s.prefix.strip(' % leaf)
+                 and isinstance(e.comparators[0], ast.Constant) and e.comparators[0].value == '')
+        chk.ob('C07.l', w is None, d, '`%s` is deleted only when its prefix is blank (no comment is lost)' % leaf, w or '')
+
+
 def rule_i(repo, chk):
     chk.clause('C07.i', 'original text is carried, not rewritten: in refactoring/extract.py a string that contains text taken from the file (a leaf\'s '
                         '.prefix, get_code(), split_lines of those, and what is joined/concatenated from them) is never passed through a '
@@ -430,4 +469,4 @@ def describe(chk):
     chk.assume('an attribute call .rename(x)/.replace(x) with one argument on an unresolved receiver is a pathlib rename')
 
 
-RULES = [('C07.a', rule_a), ('C07.b', rule_b), ('C07.c', rule_c), ('C07.d', rule_d), ('C07.e', rule_e), ('C07.f', rule_f), ('C07.g', rule_g), ('C07.h', rule_h), ('C07.i', rule_i), ('C07.j', rule_j), ('C07.k', rule_k)]
+RULES = [('C07.a', rule_a), ('C07.b', rule_b), ('C07.c', rule_c), ('C07.d', rule_d), ('C07.e', rule_e), ('C07.f', rule_f), ('C07.g', rule_g), ('C07.h', rule_h), ('C07.h', rule_h2), ('C07.i', rule_i), ('C07.j', rule_j), ('C07.k', rule_k), ('C07.l', rule_l)]
